@@ -17,7 +17,8 @@ pub fn set_sched_hook(hook: Option<SchedHook>) {
     *SCHED_HOOK.write().unwrap() = hook;
 }
 
-/// Called by a writer after it took `seq` from the shared counter and before it locks the transport.
+/// Called by a writer after it took `seq` from the shared counter and before it writes the message
+/// (the writer holds the transport lock from before the allocation until after the write).
 pub fn sched_point(name: &'static str, seq: i64) {
     let hook = *SCHED_HOOK.read().unwrap();
     if let Some(hook) = hook {
